@@ -4,7 +4,8 @@
             | P                                probe
             | (S skel ...)                     statements
             | (L <named><rewritable> skel ...) counted loop, one skel per iteration that starts; flags 0/1
-            | (C <nint> skel)                  call binding <nint> integer arguments                       *)
+            | (C <nint> skel)                  call binding <nint> integer arguments
+            | (K skel)                         catch(..): an error result becomes a value                   *)
 type ssx = SA of string | SL of ssx list
 
 let parse_ssx (s : string) : ssx =
@@ -33,6 +34,7 @@ let rec skel_of_ssx (x : ssx) : skel =
   | SL (SA "S" :: l) -> KSeq (List.map skel_of_ssx l)
   | SL (SA "L" :: SA fl :: l) when String.length fl = 2 ->
     KLoop (fl.[0] = '1', fl.[1] = '1', List.map skel_of_ssx l)
+  | SL [SA "K"; b] -> KCatch (skel_of_ssx b)
   | SL [SA "C"; SA k; b] -> KCall (nat_of_int (int_of_string k), skel_of_ssx b)
   | _ -> failwith "skel: bad shape"
 
